@@ -64,7 +64,10 @@ type Channel struct {
 	confirmQueue       []*amqp.ConfirmMeta
 	ackLock            deadlock.Mutex
 	ackStore           map[uint64]*UnackedMessage
-	metrics            *ChannelMetricsState
+	// sendLock makes a method frame, or a content-bearing method with its header and body frames,
+	// one uninterrupted sequence on the channel whoever sends it (handler, consumers, confirm ticker)
+	sendLock deadlock.Mutex
+	metrics  *ChannelMetricsState
 
 	bufferPool *pool.BufferPool
 
@@ -221,12 +224,14 @@ func (channel *Channel) sendError(err *amqp.Error) {
 		ch := channel.conn.getChannel(0)
 		if ch != nil {
 			// a connection that has not completed the handshake is dropped together with the close frame
+			ch.sendLock.Lock()
 			ch.sendMethod(&amqp.ConnectionClose{
 				ReplyCode: err.ReplyCode,
 				ReplyText: err.ReplyText,
 				ClassID:   err.ClassID,
 				MethodID:  err.MethodID,
 			}, channel.conn.status != ConnOpenOK)
+			ch.sendLock.Unlock()
 		}
 	}
 }
@@ -409,6 +414,8 @@ func (channel *Channel) publishCurrentMessage() *amqp.Error {
 // Method will be packed into frame and send to outgoing channel
 func (channel *Channel) SendMethod(method amqp.Method) {
 	closeAfter := method.ClassIdentifier() == amqp.ClassConnection && method.MethodIdentifier() == amqp.MethodConnectionCloseOk
+	channel.sendLock.Lock()
+	defer channel.sendLock.Unlock()
 	channel.sendMethod(method, closeAfter)
 }
 
@@ -436,7 +443,10 @@ func (channel *Channel) sendOutgoing(frame *amqp.Frame) {
 
 // SendContent send message to consumers or returns to publishers
 func (channel *Channel) SendContent(method amqp.Method, message *amqp.Message) *amqp.Error {
-	channel.SendMethod(method)
+	channel.sendLock.Lock()
+	defer channel.sendLock.Unlock()
+
+	channel.sendMethod(method, false)
 	verifhook.At("send.afterMethod")
 
 	var rawHeader = channel.bufferPool.Get()
